@@ -6,6 +6,7 @@
    vietorisRipsComplex / Filtration.copy freshness, follow-up mutation scripts. *)
 From Coq Require Import String ZArith Bool Arith List.
 From SV Require Import Names NamesFacts ListFacts Rep Fresh Complex Atomic RepInv Reach Homology Filtration Gen World WorldProofs Shapes CopyFaithful CopyAttrs.
+From SV Require Closed Listing.
 
 Theorem C09_copy_is_fresh :
   forall hp src uid hp' r' x, copy_new hp src uid = (hp', r', x) ->
@@ -58,3 +59,11 @@ Theorem C09_copy_attribute_values :
   (forall h0, fst h0 <> uid -> heap_get hp' h0 = heap_get hp h0).
 Proof. exact copy_attrs. Qed.
 Print Assumptions C09_copy_attribute_values.
+
+(* the copy of a closed complex (every complex of every history of public operations: C01) lists, per
+   order, exactly what the source lists, in the same sequence -- so indices are the same too *)
+Theorem C09_copy_lists_in_the_same_order :
+  forall hp src uid hp' c, Closed.cinv src -> copy_new hp (view_of src) uid = (hp', c, Ok tt) ->
+  forall j, simplicesOfOrder c j = simplicesOfOrder src j.
+Proof. exact Listing.copy_listing_per_order. Qed.
+Print Assumptions C09_copy_lists_in_the_same_order.
